@@ -21,7 +21,7 @@ P = {
     "classify_vec": _cls,
     "required_classes": ["desc/f", "desc/m", "desc/r", "class/array", "class/back", "class/noback", "member/m/hit", "member/m/miss",
                          "member/f/hit", "member/f/miss", "member/m/hit/ambiguous", "member/m/hit/rt", "member/f/hit/rt"],
-    "level_text": "(Every vector of the bounded model is replayed twice, the second time with the entries of every mapping set inserted in the opposite order, and every second recorded case is built that way: the answers may not depend on insertion order.) Remappers are specified from the mapping set: class table (entries named in both namespaces), descriptor rewriting both as the JVMS grammar (parse, map the class names, print) and as the code's single-pass scanner, member tables keyed by (name, descriptor in the from namespace), and the super-type search. TLC checks scanner = grammar and shape preservation on every field type of <= 2 dimensions and every method of <= 2 parameters over class names containing L, $, /, a single character and non-ASCII; own entry wins; depth-first = level-wise search whenever all declaring super types agree (otherwise both readings of 'nearest' are accepted); X -> Y -> X identity under injective naming, for classes (incl. a captured name as counter-case) and members, over three namespaces with any from/to pair, partial name rows, chains, diamonds in both declaration orders, missing links, unknown owners. Every query is replayed through Mappings::remapper_a / remapper_b (JarSuperProv; JarSuperProv::remap for the way back); random larger sets (2-4 namespaces) and their own descriptors run by the real code are recomputed by TLC.",
+    "level_text": "(Every vector of the bounded model is replayed twice, the second time with the entries of every mapping set inserted in the opposite order, and every second recorded case is built that way: the answers may not depend on insertion order.) Remappers are specified from the mapping set: class table (entries named in both namespaces), descriptor rewriting both as the JVMS grammar (parse, map the class names, print) and as the code's single-pass scanner, member tables keyed by (name, descriptor in the from namespace), and the super-type search. TLC checks scanner = grammar and shape preservation on every field type of <= 2 dimensions and every method of <= 2 parameters over class names containing L, $, /, a single character and non-ASCII; own entry wins; depth-first = level-wise search whenever all declaring super types agree (otherwise both readings of 'nearest' are accepted); X -> Y -> X identity under injective naming, for classes (incl. a captured name as counter-case) and members, over three namespaces with any from/to pair, partial name rows, chains, diamonds in both declaration orders, missing links, unknown owners. Every query is replayed through Mappings::remapper_a / remapper_b (JarSuperProv; JarSuperProv::remap for the way back); random larger sets (2-4 namespaces) and their own descriptors run by the real code are recomputed by TLC. The inheritance graphs include a super type that is the first super type of a deeper class and a later direct super type of the owner; the top class carries a sibling member whose name + descriptor are the characters of a queried, unmapped member split elsewhere (tables are keyed by the pair); one class table maps an outer class and leaves its nested classes unmapped.",
     "level_note": "Trusted: TLC (string operators Len, \\o, SubSeq), projection Mappings <-> abstract tree. When the from-column of the class table or a member table is not injective the table depends on IndexMap insertion order; such records are only required not to panic. Cyclic inheritance is not generated.",
     "assumptions": ["TLC/SANY/CommunityModules", "harness projection quill Mappings <-> abstract tree (proj_quill.rs)"],
 }
